@@ -135,7 +135,7 @@ def _split_top(s):
 
 
 class Weaver:
-    def __init__(self, repo, spec_path, config_override=None, auto_request=None):
+    def __init__(self, repo, spec_path, config_override=None, auto_request=None, auto_opaque=None):
         self.repo = repo
         self.spec_path = spec_path
         self.cur_path = spec_path
@@ -152,6 +152,7 @@ class Weaver:
         self.dropped = []      # what extraction dropped (for evidence)
         self.rewrite_log = []
         self.auto_request = set(auto_request or ())   # method names the verifier reported missing: extract them automatically
+        self.auto_opaque = set(auto_opaque or ())     # helpers whose body is outside the Verus subset: kept opaque (no contract, body not verified)
 
     # ---------------------------------------------------------------- util
     def emit_spec(self, text, lineno, fn="", label="", tags=()):
@@ -363,38 +364,69 @@ class Weaver:
 
     # ---------------------------------------------------------------- helpers the source introduced but the unit does not name
     def emit_auto_helpers(self, lineno):
-        """A refactoring may move code into a new private method.  Any method of the same source impl block that an extracted
-        body calls and that no directive names is extracted automatically; an expression-bodied one gets its own body as its
-        postcondition (that is inlining), any other one is verified with no postcondition (callers learn nothing from it)."""
-        if self.ctx_impl is None:
+        """A refactoring may move code into a new private method.  Any method that the verifier reports missing is looked up
+        in the source impl blocks and extracted automatically; an expression-bodied one gets its own body as its
+        postcondition (that is inlining), any other one is verified with no postcondition (callers learn nothing from it);
+        one whose body is outside the Verus subset is kept opaque (external_body, no contract)."""
+        if self.ctx_impl is None or not self.auto_request:
             return
-        srcf = self.src(self.ctx_alias)
-        tname = self.ctx_type.split(" as ")[0]
-        declared = self.declared.get(tname, set())
-        avail = {it.name: it for it in self.ctx_impl.children if it.kind == "fn" and not _is_cfg_test(it) and it.body_open >= 0}
-        work = list(self.block_fns)
-        seen = set()
-        while work:
-            (caller, tags, body) = work.pop()
-            for m in re.finditer(r"(?:\.\s*|Self\s*::\s*)([A-Za-z_][A-Za-z0-9_]*)\s*\(", body):
-                h = m.group(1)
-                if h not in self.auto_request or h in declared or h not in avail or (tname, h) in self.auto_emitted or h in seen:
+        tags = ()
+        for (_n, t, _b) in self.block_fns:
+            tags = tuple(sorted(set(tags) | set(t)))
+        todo = [h for h in sorted(self.auto_request) if not any(h == e[1] for e in self.auto_emitted)]
+        if not todo:
+            return
+        # 1. helpers of the current impl block go into it
+        cur_t = self.ctx_type.split(" as ")[0]
+        here = {it.name: it for it in self.ctx_impl.children if it.kind == "fn" and not _is_cfg_test(it) and it.body_open >= 0}
+        for h in todo:
+            if h in here and h not in self.declared.get(cur_t, set()):
+                self._emit_helper(self.ctx_alias, self.ctx_impl, cur_t, here[h], tags, lineno)
+        # 2. helpers of other inherent impl blocks (of any loaded source) get an impl block of their own, after this one
+        pending = []
+        for alias, srcf in self.sources.items():
+            for imp in srcf.items:
+                if imp.kind != "impl" or _is_cfg_test(imp) or " as " in _impl_self_type(imp.name) or imp is self.ctx_impl:
                     continue
-                seen.add(h)
-                it = avail[h]
-                btxt = strip_comments_keep_lines(rl.text_of(srcf.toks, it.body_open, it.last))
-                inner = btxt.strip()[1:-1].strip()
-                sig = rl.text_of(srcf.toks, it.head, it.body_open - 1)
-                returns = "->" in sig
-                block = []
-                arg = h + " tags=" + ",".join(tags or ("",))
-                if returns and ";" not in inner and not re.search(r"\b(let|loop|while|for|return)\b", inner):
-                    arg += " ret=r"
-                    block.append((lineno, "        ensures r == (%s)   // #auto-%s (auto-extracted helper: its own body is its contract)" % (" ".join(inner.split()), h)))
-                self.auto_emitted.add((tname, h))
-                self.auto_helpers.append("%s::%s" % (tname, h))
-                self.do_fn(arg.replace("tags= ", ""), block, lineno)
-                work.append((h, tags, btxt))
+                t = _impl_self_type(imp.name)
+                for it in imp.children:
+                    if it.kind == "fn" and it.name in todo and it.body_open >= 0 and not any(it.name == e[1] for e in self.auto_emitted) \
+                            and it.name not in self.declared.get(t, set()):
+                        pending.append((alias, imp, t, it))
+        if pending:
+            self.emit_spec("}", lineno)   # close the current impl
+            saved = (self.ctx_alias, self.ctx_impl, self.ctx_type, self.ctx_impl_is_trait)
+            for k, (alias, imp, t, it) in enumerate(pending):
+                srcf = self.sources[alias]
+                self.ctx_alias, self.ctx_impl, self.ctx_type, self.ctx_impl_is_trait = alias, imp, t, False
+                self.emit_src(rl.text_of(srcf.toks, imp.head, imp.body_open), alias, srcf.toks[imp.head].line)
+                self._emit_helper(alias, imp, t, it, tags, lineno)
+                if k < len(pending) - 1:
+                    self.emit_spec("}", lineno)
+            # the caller emits the final "}" (of the last helper impl)
+            self.ctx_alias, self.ctx_impl, self.ctx_type, self.ctx_impl_is_trait = saved
+
+    def _emit_helper(self, alias, imp, tname, it, tags, lineno):
+        srcf = self.sources[alias]
+        h = it.name
+        btxt = strip_comments_keep_lines(rl.text_of(srcf.toks, it.body_open, it.last))
+        inner = btxt.strip()[1:-1].strip()
+        sig = rl.text_of(srcf.toks, it.head, it.body_open - 1)
+        returns = "->" in sig
+        block = []
+        arg = h + ((" tags=" + ",".join(tags)) if tags else "")
+        if (tname, h) in self.auto_opaque or h in self.auto_opaque:
+            arg += " attr=#[verifier::external_body] stub"
+            block.append((lineno, "        // auto-extracted helper kept opaque: its body is outside the Verus subset, nothing is assumed about it"))
+        elif returns and ";" not in inner and not re.search(r"\b(let|loop|while|for|return)\b", inner):
+            arg += " ret=r"
+            block.append((lineno, "        ensures r == (%s)   // #auto-%s (auto-extracted helper: its own body is its contract)" % (" ".join(inner.split()), h)))
+        self.auto_emitted.add((tname, h))
+        self.auto_helpers.append("%s::%s" % (tname, h))
+        saved = (self.ctx_alias, self.ctx_impl, self.ctx_type)
+        self.ctx_alias, self.ctx_impl, self.ctx_type = alias, imp, tname
+        self.do_fn(arg, block, lineno)
+        self.ctx_alias, self.ctx_impl, self.ctx_type = saved
 
     # ---------------------------------------------------------------- fns
     def do_fn(self, arg, block, lineno):
